@@ -158,6 +158,53 @@ func (c *Ctx) decideWindow(rule, key string, f *ssa.Function, paths []opath, res
 	return we
 }
 
+// protocolWrites reports every assignment to a field of the protocol parameter struct in the selected functions and
+// returns their number.
+func (c *Ctx) protocolWrites(rule string, fs []*ssa.Function, sel func(*ssa.Function) bool, prot *types.Named) int {
+	n := 0
+	if prot == nil {
+		return 0
+	}
+	for _, f := range fs {
+		if !sel(f) {
+			continue
+		}
+		forEachInstr(f, func(in ssa.Instruction) {
+			st, ok := in.(*ssa.Store)
+			if !ok {
+				return
+			}
+			fa, isFA := st.Addr.(*ssa.FieldAddr)
+			if !isFA || !types.Identical(derefT(fa.X.Type()), prot) {
+				return
+			}
+			// the composite literal of a fresh value is construction, not an assignment to configured parameters
+			if al, isAl := fa.X.(*ssa.Alloc); isAl {
+				if st0 := wholeStoreAny(al); st0 == nil {
+					return
+				}
+			}
+			n++
+			c.Check(rule, "assigns:"+short(f.String())+"."+fieldName(fa.X.Type(), fa.Field), false, st.Pos(), fmt.Sprintf("%s assigns %s.%s: the value the window (and every other gate) is computed with is no longer the configured one", short(f.String()), typeShort(prot), fieldName(fa.X.Type(), fa.Field)))
+		})
+	}
+	return n
+}
+
+// wholeStoreAny: some store writes the whole struct cell (a parameter or a configured value copied in), so a later
+// field store modifies a received value rather than building a fresh literal.
+func wholeStoreAny(al *ssa.Alloc) *ssa.Store {
+	if al.Referrers() == nil {
+		return nil
+	}
+	for _, r := range *al.Referrers() {
+		if st, ok := r.(*ssa.Store); ok && st.Addr == ssa.Value(al) {
+			return st
+		}
+	}
+	return nil
+}
+
 func runC09(c *Ctx) {
 	af := c.applyFuncs("C09.O1")
 	rmT := c.NamedType("api/protocol", "ResolutionModel")
@@ -339,5 +386,102 @@ func runC09(c *Ctx) {
 		c.Check("C09.O1", "parser:expiry", false, token.NoPos, fmt.Sprintf("expected one shared expiry function in the parser, found %d", len(ufs)))
 	}
 	c.Min("C09.P1", 4)
+
+	// ---- K1 the protocol parameters are what the caller configured: the parser and the applier only read them (a
+	// constructor that "fills in a default" for a zero MaxOperationTimeDelta changes the window for that configuration)
+	{
+		prot := c.NamedType("api/protocol", "Protocol")
+		nW := c.protocolWrites("C09.K1", c.Funcs, func(f *ssa.Function) bool {
+			pp := pkgPathOf(f)
+			return pp == modPkg+pParser || pp == modPkg+pApplier
+		}, prot)
+		c.Check("C09.K1", "protocol-parameters-read-only", nW == 0 && prot != nil, 0, fmt.Sprintf("the operation parser and applier never assign a field of their protocol.Protocol (%d assignment(s))", nW))
+		if w, err := buildWitness(c.Fset); err == nil {
+			wc := c.witnessCtx()
+			pt, _ := w.fns["protoWriteWitness"].Params[0].Type().(*types.Named)
+			fired := wc.protocolWrites("C09.K1", []*ssa.Function{w.fns["protoWriteWitness"]}, func(*ssa.Function) bool { return true }, pt)
+			silent := wc.protocolWrites("C09.K1", []*ssa.Function{w.fns["protoReadOK"]}, func(*ssa.Function) bool { return true }, pt)
+			c.alive("C09.K1", "a configuration field assigned a default", fired == 1, silent == 0)
+		} else {
+			c.Check("C09.K1", "positive-example:build", false, 0, "built-in positive examples could not be built: "+err.Error())
+		}
+	}
+	c.Min("C09.K1", 2)
+
+	// ---- U1 the signed anchoring times are compared in one place only: the parser hands them to the configured time
+	// validator (non-batch) and to nothing else — a consistency check of its own (say until >= from) refuses operations
+	// that the applier is documented to degrade, for every ordering of (from, until, t)
+	{
+		var bad []string
+		n := 0
+		var follow func(f *ssa.Function, v ssa.Value, what string, seen map[ssa.Value]bool, d int)
+		follow = func(f *ssa.Function, v ssa.Value, what string, seen map[ssa.Value]bool, d int) {
+			if d > 6 || seen[v] || v.Referrers() == nil {
+				return
+			}
+			seen[v] = true
+			for _, r := range *v.Referrers() {
+				switch x := r.(type) {
+				case *ssa.UnOp, *ssa.Convert, *ssa.ChangeType, *ssa.MakeInterface, *ssa.Phi:
+					follow(f, x.(ssa.Value), what, seen, d+1)
+				case *ssa.BinOp:
+					if isCmp(x.Op) {
+						bad = append(bad, fmt.Sprintf("%s compared in %s at %s", what, short(f.String()), c.pos(x.Pos())))
+					} else {
+						follow(f, x, what, seen, d+1)
+					}
+				case *ssa.Store:
+					if x.Val == v {
+						follow(f, x.Addr, what, seen, d+1) // spilled local / variadic formatting
+					}
+				case *ssa.Call:
+					g := x.Call.StaticCallee()
+					if g != nil && inModule(g) && g.Blocks != nil && pkgPathOf(g) == modPkg+pParser {
+						for i, a := range x.Call.Args {
+							if a == v && i < len(g.Params) {
+								follow(g, g.Params[i], what, seen, d+1)
+							}
+						}
+					}
+				}
+			}
+		}
+		for _, f := range c.Funcs {
+			if pkgPathOf(f) != modPkg+pParser {
+				continue
+			}
+			forEachInstr(f, func(in ssa.Instruction) {
+				fa, ok := in.(*ssa.FieldAddr)
+				if !ok {
+					return
+				}
+				fn := fieldName(fa.X.Type(), fa.Field)
+				if fn != "AnchorFrom" && fn != "AnchorUntil" {
+					return
+				}
+				if nt, isN := derefT(fa.X.Type()).(*types.Named); !isN || !strings.HasSuffix(nt.Obj().Name(), "SignedDataModel") {
+					return
+				}
+				n++
+				follow(f, fa, "signedData."+fn, map[ssa.Value]bool{}, 0)
+			})
+		}
+		sort.Strings(bad)
+		// the shared expiry function (default until = from + Δ) compares until with 0: that is the documented default
+		var foreign []string
+		for _, b := range bad {
+			own := false
+			for _, u := range ufs {
+				if strings.Contains(b, " in "+short(u.String())+" at ") {
+					own = true
+				}
+			}
+			if !own {
+				foreign = append(foreign, b)
+			}
+		}
+		c.Check("C09.U1", "anchor-times-not-compared-by-the-parser", len(foreign) == 0 && n >= 6, 0, fmt.Sprintf("%d reads of signedData.AnchorFrom / AnchorUntil in the parser package; comparisons outside the default-expiry function: %v", n, foreign))
+	}
+	c.Min("C09.U1", 1)
 	c.Assume("no int64 overflow in from + MaxOperationTimeDelta; anchoring times < 2^63; 'missing' bound = 0 as in the JSON model (omitempty)")
 }
